@@ -34,10 +34,38 @@ func main() { hx.Main("C02", runC02) }
 // constant-expression trees
 
 type node struct {
-	tag  string   // L C U B Q SHL SHR
+	tag  string   // L R F C U B Q SHL SHR
 	op   string   // U: plus neg compl; B: add…andnot; Q: eq…ge; C: kind name
-	n    *big.Int // L
+	n    *big.Int // L (integer literal), R (rune literal)
+	q    *big.Rat // F (floating-point literal): the exact value of its decimal text
 	a, b *node
+}
+
+// flit makes a floating-point literal from its decimal text (e.g. "0.1", "9007199254740992.0").
+func flit(text string) *node {
+	q, ok := new(big.Rat).SetString(text)
+	if !ok || !strings.Contains(text, ".") {
+		panic("bad float literal " + text)
+	}
+	return &node{tag: "F", op: text, q: q}
+}
+
+// decimalText writes q as a decimal literal when its denominator divides a power of ten.
+func decimalText(q *big.Rat) (string, bool) {
+	d := new(big.Int).Set(q.Denom())
+	k := 0
+	for _, p := range []int64{2, 5} {
+		e := 0
+		for new(big.Int).Mod(d, big.NewInt(p)).Sign() == 0 {
+			d.Div(d, big.NewInt(p))
+			e++
+		}
+		k = max(k, e)
+	}
+	if d.Cmp(big.NewInt(1)) != 0 || q.Sign() < 0 {
+		return "", false
+	}
+	return q.FloatString(max(k, 1)), true
 }
 
 var goOp = map[string]string{"add": "+", "sub": "-", "mul": "*", "quo": "/", "rem": "%", "and": "&", "or": "|", "xor": "^", "andnot": "&^",
@@ -63,8 +91,10 @@ func signedLit(v *big.Int) *node {
 
 func (n *node) tokens() string {
 	switch n.tag {
-	case "L":
-		return "L " + n.n.String()
+	case "L", "R":
+		return n.tag + " " + n.n.String()
+	case "F":
+		return "F " + n.q.Num().String() + " " + n.q.Denom().String()
 	case "C", "U":
 		return n.tag + " " + n.op + " " + n.a.tokens()
 	case "B", "Q":
@@ -77,6 +107,10 @@ func (n *node) src() string {
 	switch n.tag {
 	case "L":
 		return n.n.String()
+	case "R":
+		return fmt.Sprintf("'\\U%08x'", n.n.Int64())
+	case "F":
+		return n.op
 	case "C":
 		return n.op + "(" + n.a.src() + ")"
 	case "U":
@@ -92,7 +126,7 @@ func (n *node) src() string {
 // staticType: "untyped", a kind name or "bool", decided by the syntax alone.
 func (n *node) staticType() string {
 	switch n.tag {
-	case "L":
+	case "L", "R", "F":
 		return "untyped"
 	case "C":
 		return n.op
@@ -126,6 +160,9 @@ func (n *node) clone() *node {
 	if n.n != nil {
 		c.n = new(big.Int).Set(n.n)
 	}
+	if n.q != nil {
+		c.q = new(big.Rat).Set(n.q)
+	}
 	c.a, c.b = n.a.clone(), n.b.clone()
 	return &c
 }
@@ -135,7 +172,7 @@ func parseTokens(toks []string) (*node, []string, error) {
 		return nil, nil, errors.New("truncated tree")
 	}
 	switch t := toks[0]; t {
-	case "L":
+	case "L", "R":
 		if len(toks) < 2 {
 			return nil, nil, errors.New("truncated literal")
 		}
@@ -143,7 +180,23 @@ func parseTokens(toks []string) (*node, []string, error) {
 		if !ok || v.Sign() < 0 {
 			return nil, nil, errors.New("bad literal")
 		}
+		if t == "R" {
+			return &node{tag: "R", n: v}, toks[2:], nil
+		}
 		return lit(v), toks[2:], nil
+	case "F":
+		if len(toks) < 3 {
+			return nil, nil, errors.New("truncated float literal")
+		}
+		q, ok := new(big.Rat).SetString(toks[1] + "/" + toks[2])
+		if !ok {
+			return nil, nil, errors.New("bad float literal")
+		}
+		text, ok := decimalText(q)
+		if !ok {
+			return nil, nil, errors.New("float literal is not a decimal")
+		}
+		return flit(text), toks[3:], nil
 	case "C", "U":
 		if len(toks) < 2 {
 			return nil, nil, errors.New("truncated")
@@ -179,17 +232,23 @@ func simpleProgram(n *node) string {
 	return "package main\n\nconst c = " + n.src() + "\n\nfunc main() {}\n"
 }
 
-const limbs = 9 // 576 bits: more than any accepted untyped constant has
+const limbs = 16 // 1024 bits: more than any accepted untyped integer constant (512) or generated floating-point constant has
 
 // program declares the constant and prints it: a typed or boolean constant as it is, an untyped
-// integer constant as its sign and its 64-bit limbs (two's complement).
-func program(n *node) string {
+// numeric constant as its sign and the 64-bit limbs (two's complement) of c*den, where den is the
+// denominator of the reference's value (1 for integers): an untyped floating-point constant that is
+// an integer can be shifted, which gives its exact digits.
+func program(n *node, den *big.Int) string {
 	var b strings.Builder
 	b.WriteString("package main\n\nconst c = " + n.src() + "\n\nfunc main() {\n")
 	if n.staticType() == "untyped" {
+		scaled := "c"
+		if den != nil && den.Cmp(big.NewInt(1)) != 0 {
+			scaled = "(c * " + den.String() + ")" // an integer when c is the reference's value num/den
+		}
 		b.WriteString("\tprintln(c < 0)\n")
 		for i := 0; i < limbs; i++ {
-			fmt.Fprintf(&b, "\tprintln(uint64((c >> %d) & 0xFFFFFFFFFFFFFFFF))\n", 64*i)
+			fmt.Fprintf(&b, "\tprintln(uint64((%s >> %d) & 0xFFFFFFFFFFFFFFFF))\n", scaled, 64*i)
 		}
 	} else {
 		b.WriteString("\tprintln(c)\n")
@@ -213,6 +272,8 @@ var errClasses = []struct {
 	{regexp.MustCompile(`negative shift count`), "neg-shift"},
 	{regexp.MustCompile(`shift count too large`), "shift-too-large"},
 	{regexp.MustCompile(`mismatched types`), "mismatched"},
+	{regexp.MustCompile(`truncated to integer`), "truncated"},
+	{regexp.MustCompile(`floating-point % operation|operator \S+ not defined on|invalid operation: \^ `), "invalid-op"},
 	{regexp.MustCompile(`constant (addition|subtraction|multiplication|shift|bitwise [A-Za-z ]+) overflow`), "untyped-overflow"},
 	{regexp.MustCompile(`constant \S+ overflows `), "overflow"},
 }
@@ -226,20 +287,25 @@ func modelClass(s string) string {
 	return s
 }
 
-func runScriggo(n *node) (o outcome) {
+func runScriggo(n *node, den *big.Int) (o outcome) {
 	defer func() {
 		if r := recover(); r != nil {
 			o = outcome{canon: "panic", detail: fmt.Sprint(r)}
 		}
 	}()
 	untyped := n.staticType() == "untyped"
-	prog, err := scriggo.Build(scriggo.Files{"main.go": []byte(program(n))}, nil)
+	prog, err := scriggo.Build(scriggo.Files{"main.go": []byte(program(n, den))}, nil)
 	if err != nil {
 		var be *scriggo.BuildError
 		if !errors.As(err, &be) {
 			return outcome{canon: "other-error", detail: fmt.Sprintf("%T: %v", err, err)}
 		}
 		msg := err.Error()
+		if be.Position().Line > 3 {
+			// the declaration was accepted; the statements that print c*den were not: c is not the
+			// reference's value (c*den is not an integer)
+			return outcome{accepted: true, canon: "ok num untyped not-a-multiple-of-1/" + den.String(), detail: msg}
+		}
 		for _, c := range errClasses {
 			if c.re.MatchString(msg) {
 				return outcome{canon: "err " + c.class, detail: msg}
@@ -263,7 +329,7 @@ func runScriggo(n *node) (o outcome) {
 		if b, ok := vals[0].(bool); ok {
 			return outcome{accepted: true, canon: fmt.Sprintf("ok bool %v", b)}
 		}
-		return outcome{accepted: true, canon: fmt.Sprintf("ok int %T %v", vals[0], vals[0])}
+		return outcome{accepted: true, canon: fmt.Sprintf("ok num %T %v/1", vals[0], vals[0])}
 	}
 	if len(vals) != limbs+1 {
 		return outcome{canon: "run-error", detail: fmt.Sprint("printed ", vals)}
@@ -284,7 +350,29 @@ func runScriggo(n *node) (o outcome) {
 	if neg {
 		v.Sub(v, new(big.Int).Lsh(big.NewInt(1), 64*limbs))
 	}
-	return outcome{accepted: true, canon: "ok int untyped " + v.String()}
+	q := new(big.Rat).SetInt(v)
+	if den != nil && den.Sign() > 0 {
+		q.SetFrac(v, den)
+	}
+	return outcome{accepted: true, canon: "ok num untyped " + ratString(q)}
+}
+
+func ratString(q *big.Rat) string { return q.Num().String() + "/" + q.Denom().String() }
+
+// valueKey drops what cannot be observed on the Scriggo side: the kind of an untyped constant.
+func valueKey(canon string) string {
+	return strings.NewReplacer("untyped-rune", "untyped", "untyped-float", "untyped").Replace(canon)
+}
+
+// denOf gives the denominator of an accepted numeric outcome.
+func denOf(o outcome) *big.Int {
+	f := strings.Fields(o.canon)
+	if o.accepted && len(f) == 4 && f[1] == "num" {
+		if q, ok := new(big.Rat).SetString(f[3]); ok {
+			return new(big.Int).Set(q.Denom())
+		}
+	}
+	return big.NewInt(1)
 }
 
 // runGoTypes is the reference: go/types type-checks the same program, go/constant holds the value.
@@ -309,17 +397,25 @@ func runGoTypes(src string) outcome {
 		return outcome{canon: "err", detail: "no constant c"}
 	}
 	t := c.Type().String()
-	switch {
-	case t == "untyped bool":
+	switch t {
+	case "untyped bool":
 		return outcome{accepted: true, canon: fmt.Sprintf("ok bool %v", constant.BoolVal(c.Val()))}
-	case t == "untyped int":
+	case "untyped int":
 		t = "untyped"
+	case "untyped rune":
+		t = "untyped-rune"
+	case "untyped float":
+		t = "untyped-float"
 	}
-	v := constant.ToInt(c.Val())
-	if v.Kind() != constant.Int {
-		return outcome{canon: "err", detail: "not an integer constant: " + c.Val().String()}
+	num, den := constant.Num(c.Val()), constant.Denom(c.Val())
+	if num.Kind() != constant.Int || den.Kind() != constant.Int {
+		return outcome{canon: "unknown", detail: "go/constant does not hold this value as a fraction: " + c.Val().String()}
 	}
-	return outcome{accepted: true, canon: "ok int " + t + " " + v.ExactString()}
+	q, ok := new(big.Rat).SetString(num.ExactString() + "/" + den.ExactString())
+	if !ok {
+		return outcome{canon: "unknown", detail: "cannot read " + c.Val().ExactString()}
+	}
+	return outcome{accepted: true, canon: "ok num " + t + " " + ratString(q)}
 }
 
 // ---------------------------------------------------------------------------------------------
@@ -329,11 +425,12 @@ func runGoTypes(src string) outcome {
 // them) the reference is goEval: the Go specification's exact arithmetic by math/big.
 
 type goVal struct {
-	typ  string // "untyped", kind name, "bool"
-	v    *big.Int
+	typ  string   // "untyped", "untyped-rune", "untyped-float", kind name, "bool"
+	v    *big.Rat // numeric value
 	b    bool
 	bad  bool // rejected
-	minq bool // a division MinInt64 / -1 was evaluated below
+	minq bool // a division MinInt64 / -1 was evaluated below (go/constant's own defect)
+	wide bool // some value below is not a binary fraction with a 512-bit mantissa: a big.Float would round it
 }
 
 func fitsKind(k string, v *big.Int) bool {
@@ -341,102 +438,162 @@ func fitsKind(k string, v *big.Int) bool {
 	return lo.Cmp(v) <= 0 && v.Cmp(hi) <= 0
 }
 
-func goCheck(typ string, v *big.Int) bool {
-	if typ == "untyped" {
-		return v.BitLen() <= 512
+var untypedRank = map[string]int{"untyped": 0, "untyped-rune": 1, "untyped-float": 2}
+
+func isUntyped(t string) bool { _, ok := untypedRank[t]; return ok }
+
+func goCheck(typ string, v *big.Rat) bool {
+	switch typ {
+	case "untyped-float":
+		return true
+	case "untyped", "untyped-rune":
+		return v.IsInt() && v.Num().BitLen() <= 512
 	}
-	return fitsKind(typ, v)
+	return v.IsInt() && fitsKind(typ, v.Num())
+}
+
+// rep512 tells whether q is a binary fraction whose mantissa has at most 512 bits.
+func rep512(q *big.Rat) bool {
+	d := q.Denom()
+	if new(big.Int).And(d, new(big.Int).Sub(d, big.NewInt(1))).Sign() != 0 {
+		return false
+	}
+	n := new(big.Int).Abs(q.Num())
+	if n.Sign() == 0 {
+		return true
+	}
+	return n.BitLen()-int(n.TrailingZeroBits()) <= 512
 }
 
 var minI64 = big.NewInt(-9223372036854775808)
 
 func goEval(n *node) (r goVal) {
-	rej := func(minq bool) goVal { return goVal{bad: true, minq: minq} }
+	defer func() {
+		if !r.bad && r.typ != "bool" && !rep512(r.v) {
+			r.wide = true
+		}
+	}()
+	rej := func(minq, wide bool) goVal { return goVal{bad: true, minq: minq, wide: wide} }
 	switch n.tag {
 	case "L":
 		if n.n.BitLen() > 512 {
-			return rej(false)
+			return rej(false, false)
 		}
-		return goVal{typ: "untyped", v: n.n}
+		return goVal{typ: "untyped", v: new(big.Rat).SetInt(n.n)}
+	case "R":
+		return goVal{typ: "untyped-rune", v: new(big.Rat).SetInt(n.n)}
+	case "F":
+		return goVal{typ: "untyped-float", v: n.q}
 	case "C":
 		a := goEval(n.a)
-		if a.bad || a.typ == "bool" || !fitsKind(n.op, a.v) {
-			return rej(a.minq)
+		if a.bad || a.typ == "bool" || !a.v.IsInt() || !fitsKind(n.op, a.v.Num()) {
+			return rej(a.minq, a.wide)
 		}
-		return goVal{typ: n.op, v: a.v, minq: a.minq}
+		return goVal{typ: n.op, v: a.v, minq: a.minq, wide: a.wide}
 	case "U":
 		a := goEval(n.a)
 		if a.bad || a.typ == "bool" {
-			return rej(a.minq)
+			return rej(a.minq, a.wide)
 		}
-		v := new(big.Int)
+		v := new(big.Rat)
 		switch n.op {
 		case "plus":
 			v.Set(a.v)
 		case "neg":
 			v.Neg(a.v)
 		case "compl":
+			if a.typ == "untyped-float" {
+				return rej(a.minq, a.wide)
+			}
 			if strings.HasPrefix(a.typ, "uint") {
 				_, hi := kindRange(a.typ)
-				v.Xor(hi, a.v)
+				v.SetInt(new(big.Int).Xor(hi, a.v.Num()))
 			} else {
-				v.Not(a.v)
+				v.SetInt(new(big.Int).Not(a.v.Num()))
 			}
 		}
 		if !goCheck(a.typ, v) {
-			return rej(a.minq)
+			return rej(a.minq, a.wide)
 		}
-		return goVal{typ: a.typ, v: v, minq: a.minq}
+		return goVal{typ: a.typ, v: v, minq: a.minq, wide: a.wide}
 	}
 	a, b := goEval(n.a), goEval(n.b)
-	minq := a.minq || b.minq
+	minq, wide := a.minq || b.minq, a.wide || b.wide
 	if a.bad || b.bad || a.typ == "bool" || b.typ == "bool" {
-		return rej(minq)
+		return rej(minq, wide)
 	}
 	if n.tag == "SHL" || n.tag == "SHR" {
-		if b.v.Sign() < 0 || b.v.Cmp(big.NewInt(1074)) > 0 {
-			return rej(minq)
+		if !a.v.IsInt() || !b.v.IsInt() || b.v.Sign() < 0 || b.v.Num().Cmp(big.NewInt(1074)) > 0 {
+			return rej(minq, wide)
 		}
 		v := new(big.Int)
 		if n.tag == "SHL" {
-			v.Lsh(a.v, uint(b.v.Uint64()))
+			v.Lsh(a.v.Num(), uint(b.v.Num().Uint64()))
 		} else {
-			v.Rsh(a.v, uint(b.v.Uint64()))
+			v.Rsh(a.v.Num(), uint(b.v.Num().Uint64()))
 		}
-		if !goCheck(a.typ, v) {
-			return rej(minq)
+		typ := a.typ
+		if typ == "untyped-float" {
+			typ = "untyped"
 		}
-		return goVal{typ: a.typ, v: v, minq: minq}
+		if !goCheck(typ, new(big.Rat).SetInt(v)) {
+			return rej(minq, wide)
+		}
+		return goVal{typ: typ, v: new(big.Rat).SetInt(v), minq: minq, wide: wide}
 	}
 	typ := a.typ
 	switch {
-	case a.typ == "untyped" && b.typ != "untyped":
-		typ = b.typ
-		if !fitsKind(typ, a.v) {
-			return rej(minq)
+	case isUntyped(a.typ) && isUntyped(b.typ):
+		if untypedRank[b.typ] > untypedRank[a.typ] {
+			typ = b.typ
 		}
-	case a.typ != "untyped" && b.typ == "untyped":
-		if !fitsKind(typ, b.v) {
-			return rej(minq)
+	case isUntyped(a.typ):
+		typ = b.typ
+		if !a.v.IsInt() || !fitsKind(typ, a.v.Num()) {
+			return rej(minq, wide)
+		}
+	case isUntyped(b.typ):
+		if !b.v.IsInt() || !fitsKind(typ, b.v.Num()) {
+			return rej(minq, wide)
 		}
 	case a.typ != b.typ:
-		return rej(minq)
-	}
-	if n.tag == "B" && n.op == "quo" && a.v.Cmp(minI64) == 0 && b.v.Cmp(big.NewInt(-1)) == 0 {
-		minq = true
-	}
-	s, defined := exactBinary(n.op, a.v, b.v)
-	if !defined {
-		return rej(minq)
+		return rej(minq, wide)
 	}
 	if n.tag == "Q" {
-		return goVal{typ: "bool", b: s == "true", minq: minq}
+		c := a.v.Cmp(b.v)
+		return goVal{typ: "bool", b: map[string]bool{"eq": c == 0, "ne": c != 0, "lt": c < 0, "le": c <= 0, "gt": c > 0, "ge": c >= 0}[n.op], minq: minq, wide: wide}
 	}
-	v, _ := new(big.Int).SetString(s, 10)
+	v := new(big.Rat)
+	if typ == "untyped-float" {
+		switch n.op {
+		case "add":
+			v.Add(a.v, b.v)
+		case "sub":
+			v.Sub(a.v, b.v)
+		case "mul":
+			v.Mul(a.v, b.v)
+		case "quo":
+			if b.v.Sign() == 0 {
+				return rej(minq, wide)
+			}
+			v.Quo(a.v, b.v)
+		default:
+			return rej(minq, wide)
+		}
+	} else {
+		if n.op == "quo" && a.v.Num().Cmp(minI64) == 0 && b.v.Num().Cmp(big.NewInt(-1)) == 0 {
+			minq = true
+		}
+		s, defined := exactBinary(n.op, a.v.Num(), b.v.Num())
+		if !defined {
+			return rej(minq, wide)
+		}
+		v.SetString(s)
+	}
 	if !goCheck(typ, v) {
-		return rej(minq)
+		return rej(minq, wide)
 	}
-	return goVal{typ: typ, v: v, minq: minq}
+	return goVal{typ: typ, v: v, minq: minq, wide: wide}
 }
 
 func (g goVal) outcome() outcome {
@@ -446,16 +603,16 @@ func (g goVal) outcome() outcome {
 	case g.typ == "bool":
 		return outcome{accepted: true, canon: fmt.Sprintf("ok bool %v", g.b), detail: "goEval (math/big)"}
 	}
-	return outcome{accepted: true, canon: "ok int " + g.typ + " " + g.v.String(), detail: "goEval (math/big)"}
+	return outcome{accepted: true, canon: "ok num " + g.typ + " " + ratString(g.v), detail: "goEval (math/big)"}
 }
 
-// reference is go/types on the program, except for trees that meet the go/constant defect.
-func reference(n *node) (ref outcome, tainted bool) {
-	g := goEval(n)
+// reference is go/types on the declaration, except for trees that meet the go/constant defect.
+func reference(n *node) (ref outcome, g goVal) {
+	g = goEval(n)
 	if g.minq {
-		return g.outcome(), true
+		return g.outcome(), g
 	}
-	return runGoTypes(program(n)), false
+	return runGoTypes(simpleProgram(n)), g
 }
 
 // ---------------------------------------------------------------------------------------------
@@ -603,28 +760,170 @@ func directed(g *gen) []*node {
 	return out
 }
 
+
+// ---------------------------------------------------------------------------------------------
+// mixed integer / rune / floating-point untyped constants
+
+var floatLits = []string{"0.0", "0.5", "0.25", "0.125", "1.0", "1.5", "2.0", "2.5", "3.0", "4.0", "8.0", "1024.0", "0.1", "0.2", "0.3", "1.1", "100.01",
+	"4503599627370496.5", "9007199254740992.0", "9007199254740993.0", "9007199254740993.5", "18014398509481985.0",
+	"18446744073709551616.0", "18446744073709551617.0", "1208925819614629174706177.0"}
+
+var mixedInts = []string{"0", "1", "2", "3", "5", "7", "10", "255", "256", "9007199254740991", "9007199254740992", "9007199254740993",
+	"18014398509481985", "9223372036854775807", "9223372036854775808", "18446744073709551615", "18446744073709551617", "1208925819614629174706177"}
+
+var runeLits = []int64{0, 48, 97, 233, 0x10FFFF}
+
+func (g *gen) mixedLeaf() *node {
+	var n *node
+	switch x := g.r.Intn(100); {
+	case x < 42:
+		v, _ := new(big.Int).SetString(g.r.Pick(mixedInts), 10)
+		n = lit(v)
+	case x < 85:
+		n = flit(g.r.Pick(floatLits))
+	case x < 93:
+		n = &node{tag: "R", n: big.NewInt(runeLits[g.r.Intn(len(runeLits))])}
+	default:
+		n = litI(int64(g.r.Intn(20)))
+	}
+	if g.r.Intn(5) == 0 {
+		n = &node{tag: "U", op: "neg", a: n}
+	}
+	return n
+}
+
+var mixedArith = []string{"add", "sub", "mul", "quo"}
+
+func (g *gen) mixedExpr(depth int) *node {
+	if depth <= 0 {
+		return g.mixedLeaf()
+	}
+	switch x := g.r.Intn(100); {
+	case x < 15:
+		return g.mixedLeaf()
+	case x < 70:
+		return &node{tag: "B", op: g.r.Pick(mixedArith), a: g.mixedExpr(depth - 1), b: g.mixedExpr(depth - 1)}
+	case x < 76:
+		return &node{tag: "B", op: g.r.Pick(arithOps), a: g.mixedExpr(depth - 1), b: g.mixedExpr(depth - 1)}
+	case x < 86:
+		return &node{tag: "C", op: g.r.Pick(kinds), a: g.mixedExpr(depth - 1)}
+	case x < 92:
+		return &node{tag: "U", op: g.r.Pick(unOps), a: g.mixedExpr(depth - 1)}
+	case x < 96:
+		return &node{tag: "SHL", a: g.mixedExpr(depth - 1), b: g.mixedCount()}
+	}
+	return &node{tag: "SHR", a: g.mixedExpr(depth - 1), b: g.mixedCount()}
+}
+
+func (g *gen) mixedCount() *node {
+	switch g.r.Intn(4) {
+	case 0:
+		return flit(g.r.Pick([]string{"0.0", "1.0", "2.0", "3.0", "1.5", "64.0"}))
+	case 1:
+		return g.mixedLeaf()
+	}
+	return litI(int64(g.r.Intn(70)))
+}
+
+func (g *gen) mixedRoot() *node {
+	depth := 1 + g.r.Intn(3)
+	if g.r.Intn(5) == 0 {
+		return &node{tag: "Q", op: g.r.Pick(cmpOps), a: g.mixedExpr(depth - 1), b: g.mixedExpr(depth - 1)}
+	}
+	return g.mixedExpr(depth)
+}
+
+// directedMixed: every arithmetic operator and comparison on every (integer, float) pair of the
+// boundary sets, in both orders; conversions of float literals to every kind; the promotions of every
+// pair of implementations (int64Const, intConst, float64Const, floatConst, ratConst) on integers that
+// need more than 53 and more than 64 bits.
+func directedMixed() []*node {
+	var out []*node
+	ints := []string{"0", "1", "3", "9007199254740992", "9007199254740993", "18014398509481985", "9223372036854775807", "18446744073709551617", "1208925819614629174706177"}
+	floats := []string{"0.0", "0.5", "1.0", "2.0", "1.5", "0.1", "9007199254740992.0", "9007199254740993.5", "18446744073709551617.0"}
+	I := func(s string) *node { v, _ := new(big.Int).SetString(s, 10); return lit(v) }
+	for _, op := range append(append([]string{}, mixedArith...), cmpOps...) {
+		tag := "B"
+		if len(op) == 2 {
+			tag = "Q"
+		}
+		for _, a := range ints {
+			for _, b := range floats {
+				out = append(out, &node{tag: tag, op: op, a: I(a), b: flit(b)}, &node{tag: tag, op: op, a: flit(b), b: I(a)})
+				// the integer against a floatConst (the sum of two float64 constants is a big.Float)
+				bf := &node{tag: "B", op: "add", a: flit(b), b: flit("0.25")}
+				out = append(out, &node{tag: tag, op: op, a: I(a), b: bf}, &node{tag: tag, op: op, a: bf.clone(), b: I(a)})
+			}
+		}
+		for _, a := range floats {
+			for _, b := range floats {
+				out = append(out, &node{tag: tag, op: op, a: flit(a), b: flit(b)})
+			}
+		}
+	}
+	sub := func(a, b *node) *node { return &node{tag: "B", op: "sub", a: a, b: b} }
+	add := func(a, b *node) *node { return &node{tag: "B", op: "add", a: a, b: b} }
+	out = append(out,
+		sub(add(I("9007199254740993"), flit("0.5")), flit("9007199254740993.5")),
+		&node{tag: "B", op: "quo", a: I("1"), b: sub(I("9007199254740993"), flit("9007199254740992.0"))},
+		&node{tag: "C", op: "uint", a: sub(I("9007199254740992"), add(I("9007199254740993"), flit("0.0")))},
+		&node{tag: "C", op: "uint", a: sub(I("9007199254740993"), add(I("9007199254740993"), flit("0.0")))},
+	)
+	for _, k := range kinds {
+		for _, f := range []string{"0.0", "1.0", "2.5", "127.0", "128.0", "255.0", "256.0", "0.5", "9007199254740992.0", "18446744073709551616.0", "18446744073709551615.0", "9223372036854775808.0", "9223372036854775807.0"} {
+			out = append(out, &node{tag: "C", op: k, a: flit(f)}, &node{tag: "C", op: k, a: &node{tag: "U", op: "neg", a: flit(f)}},
+				&node{tag: "B", op: "add", a: &node{tag: "C", op: k, a: litI(1)}, b: flit(f)})
+		}
+		out = append(out, &node{tag: "C", op: k, a: &node{tag: "B", op: "mul", a: flit("2.5"), b: litI(2)}},
+			&node{tag: "C", op: k, a: &node{tag: "R", n: big.NewInt(97)}})
+	}
+	for _, f := range []string{"8.0", "2.5", "0.0", "9007199254740992.0"} {
+		for _, cnt := range []*node{litI(1), flit("1.0"), flit("1.5"), litI(64), &node{tag: "U", op: "neg", a: flit("1.0")}} {
+			out = append(out, &node{tag: "SHL", a: flit(f), b: cnt.clone()}, &node{tag: "SHR", a: flit(f), b: cnt.clone()},
+				&node{tag: "SHL", a: litI(3), b: cnt.clone()})
+		}
+	}
+	for _, r := range runeLits {
+		rn := &node{tag: "R", n: big.NewInt(r)}
+		out = append(out, rn, &node{tag: "B", op: "quo", a: rn.clone(), b: litI(2)}, &node{tag: "B", op: "quo", a: rn.clone(), b: flit("2.0")},
+			&node{tag: "U", op: "compl", a: rn.clone()}, &node{tag: "B", op: "rem", a: rn.clone(), b: litI(7)})
+	}
+	return out
+}
+
 // ---------------------------------------------------------------------------------------------
 // the property's oracle at program level, and shrinking
 
 // clause compares Scriggo with the reference on one tree: "" when the property holds.
 func clause(n *node) (cl string, impl, ref outcome) {
-	impl = runScriggo(n)
-	ref, _ = reference(n)
+	cl, impl, ref, _ = clauseW(n)
+	return
+}
+
+// clauseW also reports a difference that is not judged: the tree evaluates, somewhere, a value that
+// is not a binary fraction with a 512-bit mantissa (1/3, 0.1 …), which Scriggo's big.Float arithmetic
+// may round — the class of the finding recorded by C03, not repeated here.
+func clauseW(n *node) (cl string, impl, ref outcome, unjudged string) {
+	ref, g := reference(n)
+	impl = runScriggo(n, denOf(ref))
 	switch {
 	case impl.canon == "panic":
-		return "build-panics", impl, ref
+		return "build-panics", impl, ref, ""
 	case impl.canon == "other-error" || impl.canon == "run-error":
-		return "build-error-is-not-a-BuildError", impl, ref
-	case ref.canon == "parse-error":
-		return "", impl, ref // not a Go program: nothing to compare (the generator never produces one)
+		return "build-error-is-not-a-BuildError", impl, ref, ""
+	case ref.canon == "parse-error" || ref.canon == "unknown":
+		return "", impl, ref, "" // nothing to compare (the generator avoids both)
 	case impl.accepted && !ref.accepted:
-		return "accepts-what-go-rejects", impl, ref
+		cl = "accepts-what-go-rejects"
 	case !impl.accepted && ref.accepted:
-		return "rejects-what-go-accepts", impl, ref
-	case impl.accepted && impl.canon != ref.canon:
-		return "value-differs-from-go", impl, ref
+		cl = "rejects-what-go-accepts"
+	case impl.accepted && valueKey(impl.canon) != valueKey(ref.canon):
+		cl = "value-differs-from-go"
 	}
-	return "", impl, ref
+	if cl != "" && g.wide {
+		return "", impl, ref, cl
+	}
+	return cl, impl, ref, ""
 }
 
 func (o outcome) String() string {
@@ -636,19 +935,29 @@ func (o outcome) String() string {
 
 // fold replaces a subtree by the literal of its value (as the reference computes it).
 func fold(n *node) *node {
-	if n.tag == "L" || n.tag == "Q" {
+	if n.tag == "L" || n.tag == "R" || n.tag == "F" || n.tag == "Q" {
 		return nil
 	}
 	ref := runGoTypes(simpleProgram(n))
 	f := strings.Fields(ref.canon)
-	if !ref.accepted || len(f) != 4 || f[1] != "int" {
+	if !ref.accepted || len(f) != 4 || f[1] != "num" {
 		return nil
 	}
-	v, ok := new(big.Int).SetString(f[3], 10)
+	q, ok := new(big.Rat).SetString(f[3])
 	if !ok {
 		return nil
 	}
-	return signedLit(v)
+	if q.IsInt() && f[2] != "untyped-float" {
+		return signedLit(q.Num())
+	}
+	text, ok := decimalText(new(big.Rat).Abs(q))
+	if !ok {
+		return nil
+	}
+	if q.Sign() < 0 {
+		return &node{tag: "U", op: "neg", a: flit(text)}
+	}
+	return flit(text)
 }
 
 // shrink: smallest tree (replacing subtrees by their children, by 0, 1 or their value, and
@@ -682,6 +991,12 @@ func shrink(root *node, cl string) *node {
 					cands = append(cands, p.b)
 				}
 				cands = append(cands, litI(0), litI(1))
+				if p.tag == "R" {
+					cands = append(cands, lit(p.n))
+				}
+				if p.tag == "F" && p.q.IsInt() {
+					cands = append(cands, lit(p.q.Num())) // then shrunk as an integer literal
+				}
 				if f := fold(p); f != nil && f.size() < p.size() {
 					cands = append(cands, f)
 				}
@@ -1027,7 +1342,10 @@ func matches(impl, pattern string) bool {
 func treeCase(c *hx.Ctx, n *node, model map[string]string, source string) {
 	res := c.Res
 	toks := n.tokens()
-	cl, impl, ref := clause(n)
+	cl, impl, ref, unjudged := clauseW(n)
+	if unjudged != "" {
+		res.Hist("unjudged(non-512-bit-binary value, C03's big.Float finding class):" + unjudged)
+	}
 	_, hasModel := model["C02 scriggo "+toks]
 	nontrivial := n.size() > 1 && (ref.accepted || !strings.Contains(ref.detail, "mismatched types"))
 	res.Count(toks, nontrivial)
@@ -1063,19 +1381,32 @@ func treeCase(c *hx.Ctx, n *node, model map[string]string, source string) {
 	}
 	// correspondence: the model of Scriggo's strategy against Scriggo
 	ms := model["C02 scriggo "+toks]
-	mcanon := modelClass(strings.TrimSuffix(strings.TrimSuffix(ms, " small"), " big"))
-	icanon := impl.canon
+	mcanon := ms
+	if f := strings.Fields(ms); len(f) == 5 && f[1] == "num" {
+		mcanon = strings.Join(f[:4], " ") // without the implementation
+	}
+	mcanon = valueKey(modelClass(mcanon))
+	if md := denOf(outcome{accepted: strings.HasPrefix(mcanon, "ok num"), canon: mcanon}); md.Cmp(denOf(ref)) != 0 {
+		// the reference gives no value (or another one): print the constant scaled by the model's denominator
+		impl = runScriggo(n, md)
+	}
+	icanon := valueKey(impl.canon)
 	if icanon == "panic" {
 		icanon = "err fault"
 	}
-	if mcanon != icanon {
+	switch {
+	case ms == "err inexact":
+		res.Hist("model:outside-the-exact-fragment")
+	case mcanon != icanon:
 		res.AddBreak(proto.Break{Kind: "correspondence", Name: "evalScriggo-vs-scriggo.Build", Case: "C02 scriggo " + toks,
-			Human: program(n), Impl: impl.String(), Model: ms})
+			Human: program(n, denOf(ref)), Impl: impl.String(), Model: ms})
+	default:
+		res.Hist("model:agrees")
 	}
 	// spec validation: the exact evaluator against go/types (against goEval where go/constant is defective)
 	me := model["C02 exact "+toks]
 	agree := (strings.HasPrefix(me, "err ") && !ref.accepted) || me == ref.canon
-	if ref.canon == "parse-error" {
+	if ref.canon == "parse-error" || ref.canon == "unknown" {
 		return
 	}
 	if g := goEval(n); g.minq {
@@ -1085,7 +1416,7 @@ func treeCase(c *hx.Ctx, n *node, model map[string]string, source string) {
 		if go2 := g.outcome(); go2.accepted != ref.accepted || (go2.accepted && go2.canon != ref.canon) {
 			res.SpecChecks["goEval-DISAGREES-with-go/types"]++
 			res.AddBreak(proto.Break{Kind: "correspondence", Name: "spec-validation: goEval-vs-go/types", Case: "C02 exact " + toks,
-				Human: program(n), Impl: "go/types: " + ref.String(), Model: "goEval: " + go2.String()})
+				Human: simpleProgram(n), Impl: "go/types: " + ref.String(), Model: "goEval: " + go2.String()})
 		} else {
 			res.SpecChecks["goEval-agrees-with-go/types"]++
 		}
@@ -1095,7 +1426,7 @@ func treeCase(c *hx.Ctx, n *node, model map[string]string, source string) {
 	} else {
 		res.SpecChecks["evalExact-DISAGREES-with-go/types"]++
 		res.AddBreak(proto.Break{Kind: "correspondence", Name: "spec-validation: evalExact-vs-go/types", Case: "C02 exact " + toks,
-			Human: program(n), Impl: "go/types: " + ref.String(), Model: me})
+			Human: simpleProgram(n), Impl: "go/types: " + ref.String(), Model: me})
 	}
 }
 
@@ -1131,8 +1462,14 @@ func runC02(c *hx.Ctx) error {
 	for _, n := range directed(g) {
 		trees = append(trees, tc{n, "directed"})
 	}
+	for _, n := range directedMixed() {
+		trees = append(trees, tc{n, "directed-mixed"})
+	}
 	for i := 0; i < c.N(5000, 80000); i++ {
 		trees = append(trees, tc{g.root(), "random"})
+	}
+	for i := 0; i < c.N(4000, 60000); i++ {
+		trees = append(trees, tc{g.mixedRoot(), "random-mixed"})
 	}
 	ops := opLevelCases(c)
 
@@ -1242,7 +1579,7 @@ func replay(c *hx.Ctx) error {
 				return fmt.Errorf("replay: cannot parse %q", line)
 			}
 			cl, impl, ref := clause(n)
-			fmt.Printf("replay %s\n%s scriggo : %s\n go/types: %s\n model   : %s\n clause  : %q\n", line, program(n), impl, ref, m, cl)
+			fmt.Printf("replay %s\n%s scriggo : %s\n go/types: %s\n model   : %s\n clause  : %q\n", line, program(n, denOf(ref)), impl, ref, m, cl)
 			c.Res.Count(line, true)
 			if cl != "" {
 				c.Res.AddBreak(proto.Break{Kind: "property", Name: cl, Case: line, Human: simpleProgram(n), Impl: impl.String(), Model: "go/types: " + ref.String()})
